@@ -721,6 +721,28 @@ def membership_guarded(edge):
                     for b2, t2 in find_calls(b, ["std::vec::Vec::<T, A>::push"]):
                         if b.dominates(tgt, b2) and b.dominates(b2, edge.bb):
                             return True
+        # the test stored in a named flag first: `let is_cycle = a == b || set.iter().any(..); if is_cycle { return Err }` — every definition
+        # of the flag is the constant true or the result of any(): the flag being false means any() answered false
+        op = t["op"]
+        if op["k"] in ("copy", "move") and not op["pl"]["p"]:
+            srcs = {op["pl"]["l"]}
+            for (b2, i2, dp, rv) in b.defs.get(op["pl"]["l"], []):
+                if rv["k"] == "use" and rv["op"]["k"] in ("copy", "move") and not rv["op"]["pl"]["p"]:
+                    srcs.add(rv["op"]["pl"]["l"])
+            defs = [d for x in srcs for d in b.defs.get(x, []) if not d[2]]
+            has_any = any(d[3]["k"] == "call" and callee_def(d[3]["t"]).endswith("::any") for d in defs)
+            only = all((d[3]["k"] == "use" and d[3]["op"]["k"] == "const" and str(d[3]["op"].get("v")) == "1")
+                       or (d[3]["k"] == "call" and callee_def(d[3]["t"]).endswith("::any"))
+                       or (d[3]["k"] == "use" and d[3]["op"]["k"] in ("copy", "move") and d[3]["op"]["pl"]["l"] in srcs) for d in defs)
+            if has_any and only:
+                for v, tgt in t["targets"]:
+                    if v == "0" and b.dominates(tgt, edge.bb) and tgt != sb:
+                        others = [x for x in b.succ[sb] if x != tgt]
+                        if any(edge.bb in b.reach_from(o, removed_blocks=frozenset([sb])) for o in others):
+                            continue
+                        for b2, t2 in find_calls(b, ["std::vec::Vec::<T, A>::push"]):
+                            if b.dominates(tgt, b2) and b.dominates(b2, edge.bb):
+                                return True
     return False
 
 
@@ -744,3 +766,36 @@ def only_called_from(crate, fn, allowed, depth=0):
         if not only_called_from(crate, src, allowed, depth + 1):
             return False
     return True
+
+
+def gate_call_establishes(body, bb, crate, pred):
+    """bb is dominated by the success edge of `h(..)?` (h crate-local) and, inside h, every `Ok(..)` it builds is dominated by an edge whose
+    facts satisfy pred(fact, h): the check was factored out into a helper that returns Err when it fails"""
+    from engine import find_aggs
+    for cb, t in body.calls():
+        if cb == bb or not body.dominates(cb, bb):
+            continue
+        h = None
+        for n in callee_names(t):
+            h = crate.bodies.get(n) or h
+        if h is None or h is body or h.kind == "const":
+            continue
+        if not any(body.dominates(tgt, bb) for sb, tgt in ok_edges_of_call(body, crate, cb)):
+            continue
+        oks = [b2 for b2, idx, st in find_aggs(h, "std::result::Result", "Ok")]
+        if not oks:
+            continue
+        ef = EdgeFacts(h, crate)
+        good = True
+        for ob in oks:
+            dom = False
+            for sb in sorted(h.reachable):
+                if h.term(sb)["k"] != "switch":
+                    continue
+                for tgt, fl in ef.facts_for_switch(sb).items():
+                    if tgt != sb and h.dominates(tgt, ob) and any(pred(f, h) for f in fl):
+                        dom = True
+            good = good and dom
+        if good:
+            return h.path
+    return None
